@@ -4,8 +4,8 @@ import os
 import time
 
 ROOT = os.path.dirname(os.path.dirname(os.path.abspath(__file__)))
-EVID = os.path.join(ROOT, "evidence")
-REPL = os.path.join(ROOT, "replays")
+EVID = os.environ.get("EINX_VERIF_OUT", os.path.join(ROOT, "evidence"))
+REPL = os.environ.get("EINX_VERIF_OUT", os.path.join(ROOT, "replays"))
 BASELINE = os.path.join(ROOT, "baseline", "obligations.json")
 
 
